@@ -32,7 +32,8 @@ N = "nodes::"
 RM = "rules::convert_require::RequireMode"
 CTX = "rules::Context"
 PROJECT = "proj"
-SOURCES = [("pkg", "packages"), ("lib", "packages/lib")]
+SOURCES = [("pkg", "packages"), ("lib", "packages/lib"), ("pkz", "packages")]     # pkg / pkz: two names for one directory (a tie for the converter)
+RC_ALIASES = [("@rc", "rcdir/packages")]     # as .luaurc discovery stores them: '@'-prefixed, already relative to the working directory
 
 
 # ---- the documented behaviour, written independently of the code ---------------------------------------------------
@@ -67,6 +68,8 @@ def spec_head(mode, folder, req, source):
     table = dict(SOURCES) if mode == "path" else {"@" + k: v for k, v in SOURCES}
     if mode == "luau" and name == "@self":
         return posixpath.normpath(posixpath.join(srcdir, *rest))
+    if name in dict(RC_ALIASES):
+        return posixpath.normpath(posixpath.join(dict(RC_ALIASES)[name], *rest))
     if name in table:
         return posixpath.normpath(posixpath.join(PROJECT, table[name], *rest))
     return None
@@ -104,14 +107,16 @@ class Harness:
                         self.conv_adt, self.conv_fn, self.conv_fields = p, f, fs
         self.tracker_new = lib.fn("process::scope_visitor::IdentifierTracker::new")
 
-    def mode(self, kind, folder="init"):
+    def mode(self, kind, folder="init", rev=False):
         lib = self.lib
+        SOURCES = list(reversed(globals()["SOURCES"])) if rev else globals()["SOURCES"]     # insertion order = iteration order of the model map
         if kind == "path":
             return Enum(RM, "Path", {"0": make(lib, self.variants["Path"], {
                 "module_folder_name": folder, "sources": PyMap([(k, PathV(v)) for k, v in SOURCES]),
-                "luau_rc_aliases": NONE, "use_luau_configuration": False})})
+                "luau_rc_aliases": some(PyMap([(k, PathV(v)) for k, v in RC_ALIASES])), "use_luau_configuration": True})})
         return Enum(RM, "Luau", {"0": make(lib, self.variants["Luau"], {
-            "aliases": PyMap([("@" + k, PathV(v)) for k, v in SOURCES]), "luau_rc_aliases": NONE, "use_luau_configuration": False})})
+            "aliases": PyMap([("@" + k, PathV(v)) for k, v in SOURCES]),
+            "luau_rc_aliases": some(PyMap([(k, PathV(v)) for k, v in RC_ALIASES])), "use_luau_configuration": True})})
 
     def call_node(self, text):
         lib = self.lib
@@ -189,9 +194,11 @@ class Harness:
 
 
 SOURCES_FILES = ["src/main.lua", "src/init.lua", "src/sub/init.luau", "main.lua", "init.lua", "src/sub/index.lua"]
-REL_REQS = ["./m", "../m", "./sub/m", "./m.lua", "./m.luau", "./m.d", "././m", "./sub/../m", "../x/m", "../../x/m"]
-NAMED = {"path": ["pkg/m", "pkg", "lib/m.lua", "nope/m"], "luau": ["@pkg/m", "@pkg", "@lib/m.lua", "@self/m", "@self", "@nope/m"]}
-MODES = [("path", "init"), ("path", "index"), ("luau", "init")]
+REL_REQS = ["./m", "../m", "./sub/m", "./m.lua", "./m.luau", "./m.d", "././m", "./sub/../m", "../x/m", "../../x/m", "./sub/init.spec", "./init.d"]
+NAMED = {"path": ["pkg/m", "pkg", "lib/m.lua", "nope/m", "@rc/m"], "luau": ["@pkg/m", "@pkg", "@lib/m.lua", "@self/m", "@self", "@nope/m", "@rc/m"]}
+MODES = [("path", "init"), ("path", "index"), ("path", "index.lua"), ("luau", "init")]
+CONVERT_PAIRS = [(("path", "init"), ("path", "init")), (("path", "init"), ("luau", "init")), (("luau", "init"), ("path", "init")), (("luau", "init"), ("luau", "init")),
+                 (("path", "index"), ("luau", "init")), (("luau", "init"), ("path", "index")), (("path", "index"), ("path", "init")), (("path", "init"), ("path", "index"))]
 
 
 def layouts(cands, tier, full):
@@ -206,40 +213,54 @@ def layouts(cands, tier, full):
     return out
 
 
+_H = None
+
+
+def _resolve_row(job):
+    kind, folder, source, req, tier = job
+    H = _H
+    mode = H.mode(kind, folder)
+    head = spec_head(kind, folder, req, source)
+    cands = spec_candidates(head, folder) if head is not None else []
+    # every pair / subset for the plain shapes; singles for the rest
+    full = req in ("./m", "../m", "pkg/m", "@pkg/m", "@self/m") and source in ("src/main.lua", "src/init.lua")
+    bad, cells = None, 0
+    for files in layouts(cands, tier, full):
+        want = spec_resolve(kind, folder, req, source, files)
+        got = H.resolve(mode, req, source, files)
+        cells += 1
+        good = (got[0] == "err") if want is None else (got == ("ok", want))
+        if not good and bad is None:
+            bad = (sorted(files), want, got)
+    return ("%s(%s)|%s|%s" % (kind, folder, source, req), bad, cells)
+
+
+def pmap(fn, jobs):
+    import multiprocessing as mp
+    import os
+    n = min(12, os.cpu_count() or 1)
+    if n <= 1 or len(jobs) < 8:
+        return [fn(j) for j in jobs]
+    with mp.get_context("fork").Pool(n) as pool:
+        return pool.map(fn, jobs, chunksize=4)
+
+
 def resolve_rule(R, ctx, H, tier):
     rid = "C15.resolve"
     R.rule(rid, "RequireMode::find_require, evaluated from its typed tree with std::path's Unix semantics and the file system as an "
                 "enumerated oracle, returns the first existing candidate of the documented order (path, .luau, .lua, folder file, "
                 "folder file .luau, .lua), relative to the requiring file for ./ and ../ (its parent when the requiring file is a "
-                "module-folder file, luau mode), to the configured source / alias / @self otherwise; unknown sources are errors. "
+                "module-folder file, luau mode), to the configured source / alias / .luaurc alias / @self otherwise; unknown sources are errors. "
                 "Compared with an independent specification for every mode x requiring file x require string x layout "
                 "(none, each single candidate, each pair; thorough: every subset)")
+    jobs = [(kind, folder, source, req, tier) for kind, folder in MODES for source in SOURCES_FILES for req in REL_REQS + NAMED[kind]]
     n = n_cells = 0
-    for kind, folder in MODES:
-        mode = H.mode(kind, folder)
-        for source in SOURCES_FILES:
-            for req in REL_REQS + NAMED[kind]:
-                head = spec_head(kind, folder, req, source)
-                cands = spec_candidates(head, folder) if head is not None else []
-                # every pair / subset for the plain shapes; singles for the rest
-                full = req in ("./m", "../m", "pkg/m", "@pkg/m", "@self/m") and source in ("src/main.lua", "src/init.lua")
-                bad = None
-                cells = 0
-                for files in layouts(cands, tier, full):
-                    want = spec_resolve(kind, folder, req, source, files)
-                    got = H.resolve(mode, req, source, files)
-                    cells += 1
-                    if want is None:
-                        good = got[0] == "err"
-                    else:
-                        good = got == ("ok", want)
-                    if not good and bad is None:
-                        bad = (sorted(files), want, got)
-                n += 1
-                n_cells += cells
-                R.ob(rid, "%s(%s)|%s|%s" % (kind, folder, source, req), bad is None, ctx.where(H.find),
-                     "%d layouts agree with the documented order" % cells if bad is None else
-                     "files present %s: documented result %s, code gives %s" % (bad[0], bad[1], bad[2]))
+    for key, bad, cells in pmap(_resolve_row, jobs):
+        n += 1
+        n_cells += cells
+        R.ob(rid, key, bad is None, ctx.where(H.find),
+             "%d layouts agree with the documented order" % cells if bad is None else
+             "files present %s: documented result %s, code gives %s" % (bad[0], bad[1], bad[2]))
     R.require(rid, "floor:cells", n >= 150 and n_cells >= 1200, ctx.where(H.find), "%d (mode, file, require) rows, %d layouts evaluated" % (n, n_cells))
     R.meta["C15.resolve"] = {"rows": n, "layouts": n_cells}
 
@@ -259,49 +280,60 @@ def string_of(call):
     return None
 
 
+def _convert_row(job):
+    (ck, cf), (tk, tf), source, req, tier = job
+    H = _H
+    cur, tgt = H.mode(ck, cf), H.mode(tk, tf)
+    head = spec_head(ck, cf, req, source)
+    if head is None:
+        return None
+    bad, cells = None, 0
+    for files in layouts(spec_candidates(head, cf), tier, False):
+        if not files:
+            continue
+        first = H.resolve(cur, req, source, files)
+        if first[0] != "ok":
+            continue
+        call, why = H.convert(cur, tgt, req, source, files)
+        new = string_of(call) if call is not None else None
+        cells += 1
+        if new is None:
+            bad = bad or (sorted(files), first[1], None, why)
+            continue
+        again = H.resolve(tgt, new, source, files)
+        if again != ("ok", first[1]):
+            bad = bad or (sorted(files), first[1], new, again)
+        elif req in NAMED[ck]:
+            # the alias tables are hash maps: the argument written must not depend on their iteration order
+            call2, _ = H.convert(H.mode(ck, cf, rev=True), H.mode(tk, tf, rev=True), req, source, files)
+            new2 = string_of(call2) if call2 is not None else None
+            if new2 != new:
+                bad = bad or (sorted(files), first[1], new, "`%s` when the alias map iterates in the other order" % new2)
+    return ("%s%s->%s%s|%s|%s" % (ck, "" if cf == "init" else "(%s)" % cf, tk, "" if tf == "init" else "(%s)" % tf, source, req), bad, cells, ck, tk)
+
+
 def convert_rule(R, ctx, H, tier):
     rid = "C15.convert"
     R.rule(rid, "the convert_require processor (found by role: the NodeProcessor holding two RequireMode values), evaluated from its "
-                "typed tree for current/target in {path, luau}^2: whenever the original require resolves to a file T under the current "
+                "typed tree for current/target in {path, luau}^2 and between modes whose module folder names differ (path `index` <-> luau, "
+                "path `index` <-> path `init`): whenever the original require resolves to a file T under the current "
                 "mode, the argument it writes resolves under the target mode to T (both resolutions by evaluating find_require). "
                 "Layouts with exactly one candidate file present")
     if not R.require(rid, "anchor:processor", H.conv_fn is not None, "", "no NodeProcessor with two RequireMode fields found"):
         return
     names = [f["name"] for f in H.conv_fields if f["tys"] == RM]
     R.require(rid, "anchor:modes", len(names) == 2, ctx.where(H.conv_fn), "RequireMode fields in declaration order: %s" % names)
+    jobs = [(c, t, source, req, tier) for c, t in CONVERT_PAIRS for source in SOURCES_FILES for req in REL_REQS + NAMED[c[0]]]
     n = n_conv = 0
-    for (ck, cf), (tk, tf) in itertools.product([("path", "init"), ("luau", "init")], repeat=2):
-        cur, tgt = H.mode(ck, cf), H.mode(tk, tf)
-        for source in SOURCES_FILES:
-            if posixpath.basename(source).startswith("index"):
-                continue
-            for req in REL_REQS + NAMED[ck]:
-                head = spec_head(ck, cf, req, source)
-                if head is None:
-                    continue
-                bad = None
-                cells = 0
-                for files in layouts(spec_candidates(head, cf), tier, False):
-                    if not files:
-                        continue
-                    first = H.resolve(cur, req, source, files)
-                    if first[0] != "ok":
-                        continue
-                    call, why = H.convert(cur, tgt, req, source, files)
-                    new = string_of(call) if call is not None else None
-                    cells += 1
-                    if new is None:
-                        bad = bad or (sorted(files), first[1], None, why)
-                        continue
-                    again = H.resolve(tgt, new, source, files)
-                    if again != ("ok", first[1]):
-                        bad = bad or (sorted(files), first[1], new, again)
-                if cells:
-                    n += 1
-                    n_conv += cells
-                    R.ob(rid, "%s->%s|%s|%s" % (ck, tk, source, req), bad is None, ctx.where(H.conv_fn),
-                         "%d conversions keep their target" % cells if bad is None else
-                         "with %s present `%s` resolves to %s (%s mode); written `%s` resolves to %s (%s mode)" % (bad[0], req, bad[1], ck, bad[2], bad[3], tk))
+    for res in pmap(_convert_row, jobs):
+        if res is None or not res[2]:
+            continue
+        key, bad, cells, ck, tk = res
+        n += 1
+        n_conv += cells
+        R.ob(rid, key, bad is None, ctx.where(H.conv_fn),
+             "%d conversions keep their target" % cells if bad is None else
+             "with %s present the require resolves to %s (%s mode); written `%s` resolves to %s (%s mode)" % (bad[0], bad[1], ck, bad[2], bad[3], tk))
     # layouts where the written argument is ambiguous: an explicit extension / folder file while an earlier candidate of the
     # shortened path exists too
     AMBIGUOUS = [("./m.lua", ("src/m.lua", "src/m.luau"), "ext"), ("./m/init.lua", ("src/m/init.lua", "src/m.lua"), "folder")]
@@ -317,6 +349,20 @@ def convert_rule(R, ctx, H, tier):
             n_conv += 1
             R.ob(rid, "%s->%s|%s|%s|shadowed-by-earlier-candidate:%s" % (ck, tk, source, req, tag), first[0] == "ok" and again == first, ctx.where(H.conv_fn),
                  "with %s present `%s` resolves to %s (%s mode); written `%s` resolves to %s (%s mode)" % (sorted(files), req, first, ck, new, again, tk))
+    # module folder names that carry an extension (`module_folder_name: "index.lua"`): the folder file must still be recognised
+    # by its full name, also when the same stem exists with the other extension
+    WITH_EXT = [(("luau", "init"), ("path", "index.lua"), "./lib/index.lua"), (("path", "init"), ("path", "index.lua"), "./lib/index.lua"),
+                (("path", "index.lua"), ("path", "index.lua"), "./lib")]
+    for (ck, cf), (tk, tf), req in WITH_EXT:
+        cur, tgt = H.mode(ck, cf), H.mode(tk, tf)
+        files, source = frozenset(["src/lib/index.lua", "src/lib/index.luau"]), "src/main.lua"
+        first = H.resolve(cur, req, source, files)
+        call, why = H.convert(cur, tgt, req, source, files)
+        new = string_of(call) if call is not None else None
+        again = H.resolve(tgt, new, source, files) if new is not None else ("unknown", why)
+        n_conv += 1
+        R.ob(rid, "%s(%s)->%s(%s)|%s|%s|folder-name-with-extension" % (ck, cf, tk, tf, source, req), first[0] == "ok" and again == first, ctx.where(H.conv_fn),
+             "with %s present `%s` resolves to %s; written `%s` resolves to %s" % (sorted(files), req, first, new, again))
     R.require(rid, "floor:rows", n >= 100 and n_conv >= 300, ctx.where(H.conv_fn), "%d (modes, file, require) rows, %d conversions evaluated" % (n, n_conv))
     R.meta["C15.convert"] = {"rows": n, "conversions": n_conv}
 
@@ -330,7 +376,8 @@ def run(R, ctx):
         "establish fails closed.")
     R.assumptions += ["Unix path semantics; UTF-8 names; alias tables given (no .luaurc discovery); roblox mode out of scope",
                       "pathdiff::diff_paths as in pathdiff 0.2.3 (transcribed in sa/pathmodel.py)"]
-    H = Harness(ctx)
+    global _H
+    H = _H = Harness(ctx)
     if not R.require("C15.resolve", "anchor:find_require", H.find is not None and thir.body_of(H.find) and {"Path", "Luau"} <= set(H.variants), "",
                      "RequireMode::find_require / its Path and Luau variants not found"):
         return
